@@ -35,3 +35,59 @@ Theorem C20_no_persist_stall_partial :
                  (mu_p s' < mu_p s)%nat /\ ~ pending s'.
 Proof. exact no_persist_stall_partial. Qed.
 Print Assumptions C20_no_persist_stall_partial.
+
+(* the repaired code, FULL one-step statement: the same without the two program-point premises
+   (the hand-over step itself; the dirty-limit wait, where the persister's close of the outgoing
+   channel is enabled and releases the merger). *)
+From Moss Require Import Sync2StallA Sync2Stall.
+Theorem C20_no_persist_stall :
+  forall c, (1 <= c_cap c)%nat -> (1 <= c_qcap c)%nat -> forall s,
+    inv c s -> invK c s -> c_ll c = true -> z_closed s = false ->
+    z_mid s = true -> z_base s = false -> ~ pending s ->
+    exists l s', bg l = true /\ l <> LMMergeFail /\ step c s l = Some s' /\
+                 (mu_p s' < mu_p s)%nat /\ ~ pending s'.
+Proof. exact no_persist_stall. Qed.
+Print Assumptions C20_no_persist_stall.
+
+(* one step, ANY dirty data (top, mid or base), every program point of merger and persister: a
+   background step (bg: no new call, no Close, no failing merge, no failing lower-level update) is
+   enabled and strictly decreases the measure mu_g. *)
+Theorem C20_gauges_step :
+  forall c, (1 <= c_cap c)%nat -> (1 <= c_qcap c)%nat -> forall s,
+    inv c s -> invK c s -> c_ll c = true -> z_closed s = false -> ~ pending s ->
+    dirty s = true ->
+    exists l s', bg l = true /\ step c s l = Some s' /\ (mu_g s' < mu_g s)%nat.
+Proof. exact gauges_step. Qed.
+Print Assumptions C20_gauges_step.
+
+(* THE CONVERSE CLAUSE: from every state an open collection with a lower level reaches without a
+   failing merge, in which no caller is pending, there is a schedule of background steps (no
+   failing merge, every lower-level update succeeds), no longer than mu_g s <= 72, after which the
+   gauges are zero: nothing in stackDirtyTop, stackDirtyMid, stackDirtyBase (everything handed over
+   and the last round published); the collection is still open, still nobody pending. *)
+Theorem C20_gauges_reach_zero :
+  forall c, (1 <= c_cap c)%nat -> (1 <= c_qcap c)%nat -> forall s,
+    reachable_nf c s -> c_ll c = true -> z_closed s = false -> ~ pending s ->
+    exists ls s', List.Forall (fun l => bg l = true) ls /\
+                  (length ls <= mu_g s)%nat /\ (mu_g s <= 72)%nat /\
+                  run c s ls = Some s' /\ gauges_zero s' /\
+                  ~ pending s' /\ z_closed s' = false /\ reachable_nf c s'.
+Proof. exact gauges_reach_zero. Qed.
+Print Assumptions C20_gauges_reach_zero.
+
+(* the hypotheses are met by a non-trivial reachable state: a batch in the top, a merged stack
+   whose hand-over was skipped, a stack with the persister *)
+Theorem C20_gauges_hypotheses_satisfiable :
+  exists s, reachable_nf cfg_plain s /\ c_ll cfg_plain = true /\ z_closed s = false /\
+            ~ pending s /\ z_top s = 1%nat /\ z_mid s = true /\ z_base s = true /\
+            z_mp s = MReply /\ z_pp s = PWoken /\ dirty s = true.
+Proof. exact gauges_hyps_satisfiable. Qed.
+Print Assumptions C20_gauges_hypotheses_satisfiable.
+
+(* "without a failing merge" cannot be dropped (observation O4): after a failed merge the merger
+   goes to sleep on the un-merged stack, the persister waits, nothing is enabled. *)
+Theorem C20_stall_after_merge_failure_O4 :
+  exists s, reachable_gen MutNone cfg_plain s /\ z_closed s = false /\ z_mid s = true /\
+            z_base s = false /\ z_mp s = MSelect /\ z_pp s = PWait /\ stuck MutNone cfg_plain s.
+Proof. exact persist_stall_after_merge_failure. Qed.
+Print Assumptions C20_stall_after_merge_failure_O4.
